@@ -165,20 +165,23 @@ def Handler.final (h : Handler) : Handler :=
   { h with stopped := true, sentinel := h.enqueue, joined := h.enqueue, queue := [],
            sink := (h.queue.foldl Sink.write h.sink).stop }
 
-/-- a handler `remove()` may meet: not yet stopped, owned by this process, worker (if any) running,
-and without `enqueue` nothing is ever queued -/
+/-- a handler `remove()` may meet: not yet stopped, worker (if any) running, and without `enqueue`
+nothing is ever queued.  `owner` (does `stop()` run in the process that called `add()`?) is
+ARBITRARY for handlers without `enqueue` – a process forked after `add()` (daemonisation) finalises
+the handlers it inherited; only an enqueued handler belongs to the process that runs its worker -/
 def Live (h : Handler) : Prop :=
-  h.stopped = false ∧ h.owner = true ∧ h.sentinel = false ∧ h.joined = false ∧ h.hung = false ∧
-  (h.enqueue = false → h.queue = [])
+  h.stopped = false ∧ (h.enqueue = true → h.owner = true) ∧ h.sentinel = false ∧ h.joined = false ∧
+  h.hung = false ∧ (h.enqueue = false → h.queue = [])
 
 theorem handler_stop (h : Handler) (hl : Live h) : h.stop = h.final := by
   obtain ⟨enq, own, q, sk, st, se, jo, hu⟩ := h
   obtain ⟨a, b, c, d, e, f⟩ := hl
-  simp only at a b c d e f; subst a b c d e
+  simp only at a b c d e f; subst a c d e
   cases enq
   · simp at f; subst f
+    cases own <;> simp [Handler.stop, Handler.final, Gen.handlerStopOps, runStopOp]
+  · simp at b; subst b
     simp [Handler.stop, Handler.final, Gen.handlerStopOps, runStopOp]
-  · simp [Handler.stop, Handler.final, Gen.handlerStopOps, runStopOp]
 
 theorem removeOne_live (h : Handler) (hl : Live h) : removeOne h = (h.final, true) := by
   simp [removeOne, Gen.removeOps, runRemoveOp, handler_stop h hl]
